@@ -18,6 +18,8 @@ abstract/class_mixin.py compute_mro                    pyClassMro: `[[self]] ++ 
    class was created)
 attribute.py _lookup_from_mro  `for base in cls.mro:   pyLookupIn (explicit loop with `break`)
    … break`
+attribute.py _get_attribute_from_super_instance        pySkipSet / pyLookupSkip / pySuperRead
+  (skip set = MRO prefix up to `current_cls`)
 
 CPython 3.12 Objects/typeobject.c                      specification
 ----------------------------------------------------  ------------------------------------------
@@ -28,6 +30,7 @@ mro_implementation: n == 1 fast path, check_duplicates cClassMro
   ("duplicate base class"), pmerge(acc=[type], …)
 type_new stores tp_mro                                 cMroTable
 _PyType_Lookup / find_name_in_mro                      cLookupIn
+super_getattro / _super_lookup_descr                   dropThrough / cSuperRead
 
 Generic bases (`_Degenerify`, `ParameterizedClass` in compute_mro) are outside the model.
 A class whose creation failed cannot be named afterwards in CPython; in both tables a class
@@ -215,6 +218,58 @@ def cLookup (H : Hier) (defs : Nat → Nat → Bool) (c a : Nat) : Except MroErr
   match cpythonMro H c with
   | .ok m => .ok (cLookupIn defs a m)
   | .error e => .error e
+
+/-! ### lookups through `super()`: method `s` found in class `j` of `mro(type(self))` evaluates
+`super(j, self).a` -/
+
+/-- attribute.py `_get_attribute_from_super_instance`: `skip` = the entries of
+`starting_cls.mro` up to and including `current_cls` (a *set* of classes) -/
+def pySkipSet (cur : Nat) : List Nat → List Nat
+  | [] => []
+  | c :: rest => if c = cur then [c] else c :: pySkipSet cur rest
+
+/-- `_lookup_from_mro(…, skip)`: `_lookup_from_mro_flat` returns None for `base in skip` -/
+def pyLookupSkip (defs : Nat → Nat → Bool) (a : Nat) (skip : List Nat) : List Nat → Option Nat
+  | [] => none
+  | c :: rest =>
+    if c ∈ skip then pyLookupSkip defs a skip rest
+    else if defs c a then some c else pyLookupSkip defs a skip rest
+
+/-- CPython `_super_lookup_descr`: find `su->type` in `starttype->tp_mro`, continue after it -/
+def dropThrough (cur : Nat) : List Nat → List Nat
+  | [] => []
+  | c :: rest => if c = cur then rest else dropThrough cur rest
+
+inductive SRes where
+  | noClass               -- the class of the instance was not created
+  | noMethod              -- no class in the MRO defines the reader method
+  | noAttr                -- `super().a` finds nothing
+  | definer (d : Nat)
+deriving DecidableEq, Repr
+
+/-- `K_i().s()` where `s` (looked up along `mro(i)`, `sdefs c a` = class `c` defines the reader for
+`a`) is `def s(self): return super().a` -/
+def pySuperRead (H : Hier) (defs sdefs : Nat → Nat → Bool) (i a : Nat) : SRes :=
+  match computeMro H i with
+  | .error _ => .noClass
+  | .ok m =>
+    match pyLookupIn sdefs a m with
+    | none => .noMethod
+    | some j =>
+      match pyLookupSkip defs a (pySkipSet j m) m with
+      | none => .noAttr
+      | some d => .definer d
+
+def cSuperRead (H : Hier) (defs sdefs : Nat → Nat → Bool) (i a : Nat) : SRes :=
+  match cpythonMro H i with
+  | .error _ => .noClass
+  | .ok m =>
+    match cLookupIn sdefs a m with
+    | none => .noMethod
+    | some j =>
+      match cLookupIn defs a (dropThrough j m) with
+      | none => .noAttr
+      | some d => .definer d
 
 /-! ### stub classes: `_ComputeMRO` / `GetBasesInMRO` on `pytd.ClassType` nodes.
 
